@@ -536,6 +536,46 @@ func c03Dispatch(c *mc.Ctx) []c03Family {
 			return EncodePkts(ps)
 		}, bound: "5 flag bytes x every PES_header_data_length 0..255 x 0..23 bytes of the optional-field area present x 5 PES_packet_length classes; flushed by a following unit or at end of stream"})
 
+	// (2c) units of a few bytes: every prefix of 0..16 bytes of a PES packet / of a section is a whole unit (the rest
+	// of the packet is adaptation field stuffing), on an elementary PID, PSI PIDs, the CAT PID and the null PID,
+	// flushed by a following unit start or at the end of the stream
+	{
+		heads := [][]byte{
+			{0x00, 0x00, 0x01, 0xe0, 0x00, 0x00, 0x80, 0x80, 0x05, 0x21, 0x00, 0x01, 0x00, 0x01, 0xaa, 0xbb},
+			{0x00, 0x00, 0x01, 0xbe, 0x00, 0x04, 0xff, 0xff, 0xff, 0xff, 0x11, 0x22, 0x33, 0x44, 0x55, 0x66},
+			{0x00, 0x00, 0xb0, 0x0d, 0x00, 0x01, 0xc1, 0x00, 0x00, 0x00, 0x01, 0xf0, 0x00, 0x2a, 0xb1, 0x04},
+			{0x00, 0x00, 0x01, 0xbd, 0x00, 0x00, 0x8f, 0xff, 0xff, 0x00, 0x00, 0x00, 0x00, 0x00, 0x00, 0x00},
+		}
+		pidsS := []uint16{0x100, 0x00, 0x1000, 0x11, 0x01, 0x1fff}
+		fams = append(fams, c03Family{name: "pes-dispatch:tiny-units", n: int64(len(heads)) * 17 * int64(len(pidsS)) * 2, cfgs: dataCfgs,
+			gen: func(i int64) []byte {
+				h := heads[i%int64(len(heads))]
+				i /= int64(len(heads))
+				l := int(i % 17)
+				i /= 17
+				pid := pidsS[i%int64(len(pidsS))]
+				i /= int64(len(pidsS))
+				var ps []*ref.Pkt
+				if pid == 0x1000 {
+					c0 := uint8(0)
+					ps = append(ps, Packetize(PSIUnit(0, 0, [][]byte{SecPAT(modelPAT(1, 0x1000), ref.SecHdr{CNI: true})}, nil), nil, &c0, true)...)
+				}
+				cc := uint8(3)
+				if l == 0 {
+					ps = append(ps, &ref.Pkt{PID: pid, PUSI: true, HasAF: true, AF: stuffAF(nil, 184), CC: cc}) // no payload at all
+				} else {
+					ps = append(ps, &ref.Pkt{PID: pid, PUSI: true, HasPL: true, HasAF: true, AF: stuffAF(nil, 184-l), CC: cc, Payload: append([]byte{}, h[:l]...)})
+				}
+				if i == 1 {
+					ps = append(ps, &ref.Pkt{PID: pid, PUSI: true, HasPL: true, HasAF: true, AF: stuffAF(nil, 184-l-0), CC: (cc + 1) & 0xf, Payload: append([]byte{}, h[:maxInt(l, 1)]...)})
+					if l == 0 {
+						ps[len(ps)-1].AF = stuffAF(nil, 183)
+					}
+				}
+				return EncodePkts(ps)
+			}, bound: "4 heads (PES video, padding stream, PAT section, private stream) x every prefix length 0..16 as a whole unit x 6 PIDs x {flushed by the next unit start, flushed at end of stream}"})
+	}
+
 	// (3) table_id x section_length x PID
 	sls := []int{0, 1, 3, 4, 5, 8, 9, 12, 13, 17, 0x3fd, 0xfff}
 	pidsT := []uint16{0x00, 0x10, 0x11, 0x12, 0x14, 0x1000}
@@ -602,4 +642,11 @@ func c03Dispatch(c *mc.Ctx) []c03Family {
 			return EncodePkts(ps)
 		}, bound: "all 256 descriptor tags x 16 declared lengths x 0..17 bytes available x 4 fills x {PMT ES loop, SDT loop}, valid section CRC"})
 	return fams
+}
+
+func maxInt(a, b int) int {
+	if a > b {
+		return a
+	}
+	return b
 }
